@@ -9,6 +9,7 @@ from typing import Dict, List, Optional, Tuple, Type
 def main(root):
     sys.path.insert(0, root)
     import fxpkg
+    import fxtop
     from fxpkg import broken, gone, kinds, mod
     from fxpkg.sub import leaf
     from monkeytype.typing import get_type
@@ -62,6 +63,11 @@ def main(root):
         "params_pruned": T(mod.f_params, {"a": int}, int),
         # other modules
         "gone_g": T(gone.g, {"x": int}, int),
+        "gone_g2": T(gone.g, {"x": str}, gone.G),
+        "top_tf": T(fxtop.tf, {"x": int}, int),
+        "top_tf2": T(fxtop.tf2, {"x": fxtop.T, "y": str}, str),
+        "topcls": T(mod.f_argcls, {"a": fxtop.T, "b": int}, int),
+        "leaf_f2": T(leaf.leaf_f, {"x": leaf.L}, leaf.L),
         "leaf_f": T(leaf.leaf_f, {"x": int}, int),
         "top": T(fxpkg.top, {"a": int}, int),
         "broken_f": T(broken.broken_f, {"x": int}, int),
